@@ -71,7 +71,7 @@ pub proof fn lemma_count_last(s: Seq<FileEntryFormat>, ct: u16, j: int)
 /// gimli keeps content type codes in a u16: a code above 0xffff is stored as a value that is no standard or vendor
 /// code (> DW_LNCT_hi_user), i.e. as an unknown content type; a form code above 0xffff is rejected.
 pub open spec fn fmt_entry_ok(b0: RView, i: int, f: FileEntryFormat) -> bool {
-    let p = 1 + lebs_len(b0, 1, (2 * i) as nat);
+    let p = 1 + lebs_len(b0, 1, (2 * i) as nat) as int;
     let ct = b0.uleb(p);
     let q = p + b0.leb_len(p);
     &&& ct <= 0xffff ==> f.content_type.0 as nat == ct
@@ -179,3 +179,221 @@ pub open spec fn entries_len(v: RView, enc: Encoding, s: Seq<FileEntryFormat>, i
         k + fields_len(view_at(v, k as int), enc, s, s.len() as int)
     }
 }
+
+// ---------------------------------------------------------------------------------------------------------------------
+// 6.2.4 the header.  b0 = view positioned at the unit_length field; `given` = the address size the caller passes in
+// (versions 2-4 have no address_size field: "the address size of the compilation unit").
+//
+//   unit_length (4 or 12 bytes) | version uhalf | v5: address_size ubyte, segment_selector_size ubyte |
+//   header_length (4 or 8)      | minimum_instruction_length ubyte | v>=4: maximum_operations_per_instruction ubyte |
+//   default_is_stmt ubyte | line_base sbyte | line_range ubyte | opcode_base ubyte |
+//   standard_opcode_lengths ubyte[opcode_base - 1] | directory and file tables | (program starts header_length bytes
+//   after the header_length field and runs to the end of the unit)
+
+/// 7.4: initial length: 0xffffffff escapes to the 64-bit format; 0xfffffff0..0xfffffffe are reserved
+pub open spec fn il_size(b0: RView) -> nat { if b0.u(0, 4) < 0xffff_fff0 { 4 } else { 12 } }
+pub open spec fn il_len(b0: RView) -> nat { if b0.u(0, 4) < 0xffff_fff0 { b0.u(0, 4) } else { b0.u(4, 8) } }
+pub open spec fn il_format(b0: RView) -> Format { if b0.u(0, 4) < 0xffff_fff0 { Format::Dwarf32 } else { Format::Dwarf64 } }
+
+/// the unit: the il_len bytes after the initial length
+pub open spec fn lp_unit(b0: RView) -> RView { sub_view(b0, il_size(b0), il_len(b0)) }
+pub open spec fn lp_version(b0: RView) -> nat { lp_unit(b0).u(0, 2) }
+/// offset of the header_length field in the unit
+pub open spec fn lp_hl_pos(b0: RView) -> int { if lp_version(b0) >= 5 { 4 } else { 2 } }
+pub open spec fn lp_header_length(b0: RView) -> nat { lp_unit(b0).u(lp_hl_pos(b0), word_size(il_format(b0)) as int) }
+/// the header proper: the header_length bytes after the header_length field; the tables may not run past it
+pub open spec fn lp_hdr(b0: RView) -> RView {
+    sub_view(lp_unit(b0), (lp_hl_pos(b0) + word_size(il_format(b0))) as nat, lp_header_length(b0))
+}
+/// the line number program: from the end of the header to the end of the unit
+pub open spec fn lp_program(b0: RView) -> RView {
+    let o = lp_hl_pos(b0) + word_size(il_format(b0)) + lp_header_length(b0);
+    sub_view(lp_unit(b0), o as nat, (lp_unit(b0).len - o) as nat)
+}
+/// offset of default_is_stmt in the header proper (maximum_operations_per_instruction exists from version 4 on)
+pub open spec fn lp_q(b0: RView) -> int { if lp_version(b0) >= 4 { 2 } else { 1 } }
+
+/// the parameters of the line number machine as encoded in the header
+pub open spec fn lp_lh(b0: RView, given: u8) -> LineHdr {
+    let h = lp_hdr(b0);
+    let q = lp_q(b0);
+    LineHdr {
+        version: lp_version(b0) as int,
+        address_size: if lp_version(b0) >= 5 { lp_unit(b0).at(2) as int } else { given as int },
+        min_inst_len: h.at(0) as int,
+        max_ops: if lp_version(b0) >= 4 { h.at(1) as int } else { 1 },
+        default_is_stmt: h.at(q) != 0,
+        line_base: sext(h.at(q + 1) as nat, 8),
+        line_range: h.at(q + 2) as int,
+        opcode_base: h.at(q + 3) as int,
+    }
+}
+/// standard_opcode_lengths: opcode_base - 1 bytes
+pub open spec fn lp_sol(b0: RView) -> RView {
+    sub_view(lp_hdr(b0), (lp_q(b0) + 4) as nat, (lp_hdr(b0).at(lp_q(b0) + 3) - 1) as nat)
+}
+/// view positioned at the directory table (what is left of the header proper after standard_opcode_lengths)
+pub open spec fn lp_tables(b0: RView) -> RView {
+    view_at(lp_hdr(b0), lp_q(b0) + 4 + lp_hdr(b0).at(lp_q(b0) + 3) - 1)
+}
+
+/// the fixed part of the header is complete: every field lies inside its enclosing window
+pub open spec fn lp_fits(b0: RView) -> bool {
+    &&& il_size(b0) + il_len(b0) <= b0.len
+    &&& lp_hl_pos(b0) + word_size(il_format(b0)) + lp_header_length(b0) <= lp_unit(b0).len
+    &&& lp_q(b0) + 4 + lp_hdr(b0).at(lp_q(b0) + 3) - 1 <= lp_hdr(b0).len
+    &&& lp_hdr(b0).at(lp_q(b0) + 3) >= 1
+}
+
+// ---- versions 2-4: include_directories = null-terminated strings, ended by an empty string;
+//      file_names = (string, ULEB dir index, ULEB mtime, ULEB length), ended by an empty string
+
+/// total length of the first i strings (with their NULs) from the read position of v
+pub open spec fn strs_len(v: RView, i: int) -> nat
+    decreases i
+{
+    if i <= 0 { 0 } else { let k = strs_len(v, i - 1); k + cstr_len(v, k as int) + 1 }
+}
+
+pub open spec fn dirs_v4_ok<R: Reader<Offset = Offset>, Offset: ReaderOffset>(v: RView, dirs: Seq<AttributeValue<R, Offset>>) -> bool {
+    forall|i: int| 0 <= i < dirs.len() ==> ({
+        let k = strs_len(v, i);
+        let l = cstr_len(v, k as int);
+        (#[trigger] dirs[i]) matches AttributeValue::String(r) && l >= 1 && k + l < v.len && window(v, r.rv(), k, l)
+    })
+}
+
+/// the empty string that ends a version 2-4 table is at offset k
+pub open spec fn table_end_v4(v: RView, k: int) -> bool {
+    0 <= k < v.len && v.at(k) == 0
+}
+
+/// one version 2-4 file entry at the read position of v
+pub open spec fn file_v4_ok<R: Reader<Offset = Offset>, Offset: ReaderOffset>(v: RView, e: FileEntry<R, Offset>) -> bool {
+    let l = cstr_len(v, 0) as int;
+    let s = l + 1;
+    let l0 = v.leb_len(s) as int;
+    let l1 = v.leb_len(s + l0) as int;
+    &&& l >= 1 && l < v.len
+    &&& e.path_v() matches AttributeValue::String(r) && window(v, r.rv(), 0, l as nat)
+    &&& e.dir_v() as nat == v.uleb(s)
+    &&& e.time_v() as nat == v.uleb(s + l0)
+    &&& e.size_v() as nat == v.uleb(s + l0 + l1)
+    &&& e.source_v() is None
+    &&& forall|k: int| 0 <= k < 16 ==> e.md5_v()[k] == 0
+}
+
+pub open spec fn file_v4_len(v: RView) -> nat {
+    let s = cstr_len(v, 0) as int + 1;
+    let l0 = v.leb_len(s) as int;
+    let l1 = v.leb_len(s + l0) as int;
+    (s + l0 + l1 + v.leb_len(s + l0 + l1)) as nat
+}
+
+pub open spec fn files_v4_len(v: RView, i: int) -> nat
+    decreases i
+{
+    if i <= 0 { 0 } else { let k = files_v4_len(v, i - 1); k + file_v4_len(view_at(v, k as int)) }
+}
+
+pub open spec fn files_v4_ok<R: Reader<Offset = Offset>, Offset: ReaderOffset>(v: RView, files: Seq<FileEntry<R, Offset>>) -> bool {
+    forall|i: int| 0 <= i < files.len() ==> file_v4_ok(view_at(v, files_v4_len(v, i) as int), #[trigger] files[i])
+}
+
+// ---- version 5: entry-format-driven tables
+
+pub open spec fn fmts_ok(v: RView, f: Seq<FileEntryFormat>) -> bool {
+    &&& f.len() == v.at(0)
+    &&& one_path(f)
+    &&& forall|i: int| 0 <= i < f.len() ==> fmt_entry_ok(v, i, #[trigger] f[i])
+}
+pub open spec fn fmts_size(v: RView) -> nat { 1 + lebs_len(v, 1, (2 * v.at(0)) as nat) }
+
+/// view positioned at the first entry of a v5 table whose entry-format count byte is at v (formats, then ULEB count)
+pub open spec fn entries_view(v: RView) -> RView {
+    let c = view_at(v, fmts_size(v) as int);
+    view_at(c, c.leb_len(0) as int)
+}
+pub open spec fn entries_count(v: RView) -> nat { view_at(v, fmts_size(v) as int).uleb(0) }
+
+pub open spec fn dirs_v5_ok<R: Reader<Offset = Offset>, Offset: ReaderOffset>(v: RView, enc: Encoding, f: Seq<FileEntryFormat>, dirs: Seq<AttributeValue<R, Offset>>) -> bool {
+    forall|i: int| 0 <= i < dirs.len() ==> fe_path_ok(view_at(v, entries_len(v, enc, f, i) as int), enc, f, #[trigger] dirs[i])
+}
+pub open spec fn files_v5_ok<R: Reader<Offset = Offset>, Offset: ReaderOffset>(v: RView, enc: Encoding, f: Seq<FileEntryFormat>, files: Seq<FileEntry<R, Offset>>) -> bool {
+    forall|i: int| 0 <= i < files.len() ==> file_v5_ok(view_at(v, entries_len(v, enc, f, i) as int), enc, f, #[trigger] files[i])
+}
+
+/// what `LineProgramHeader::parse` has established once the fixed part of the header is decoded (carried through the
+/// four table loops): the decoded values are the encoded fields, the rejected values (0 for minimum_instruction_length,
+/// maximum_operations_per_instruction, line_range, opcode_base; version outside 2..=5; v5 segment selectors) are absent
+pub open spec fn lp_fixed_def(b0: RView, given: u8, enc: Encoding, ul: nat, hl: nat, le: LineEncoding, ob: u8, sol: RView, prog: RView) -> bool {
+    let lh = lp_lh(b0, given);
+    &&& lp_fits(b0)
+    &&& enc.format == il_format(b0)
+    &&& enc.version as int == lh.version && 2 <= enc.version <= 5
+    &&& enc.address_size as int == lh.address_size && valid_address_size(enc.address_size)
+    &&& enc.version >= 5 ==> lp_unit(b0).at(3) == 0
+    &&& ul == il_len(b0) && hl == lp_header_length(b0)
+    &&& le.minimum_instruction_length as int == lh.min_inst_len && le.minimum_instruction_length != 0
+    &&& le.maximum_operations_per_instruction as int == lh.max_ops && le.maximum_operations_per_instruction != 0
+    &&& le.default_is_stmt == lh.default_is_stmt
+    &&& le.line_base as int == lh.line_base
+    &&& le.line_range as int == lh.line_range && le.line_range != 0
+    &&& ob as int == lh.opcode_base && ob != 0
+    &&& sol == lp_sol(b0)
+    &&& prog == lp_program(b0)
+}
+
+/// `lp_fixed_def` as an atom: the table loops and the exits of `parse` carry it without looking inside
+#[verifier::opaque]
+pub open spec fn lp_fixed_ok(b0: RView, given: u8, enc: Encoding, ul: nat, hl: nat, le: LineEncoding, ob: u8, sol: RView, prog: RView) -> bool {
+    lp_fixed_def(b0, given, enc, ul, hl, le, ob, sol, prog)
+}
+
+pub proof fn lemma_fixed_intro(b0: RView, given: u8, enc: Encoding, ul: nat, hl: nat, le: LineEncoding, ob: u8, sol: RView, prog: RView)
+    requires lp_fixed_def(b0, given, enc, ul, hl, le, ob, sol, prog)
+    ensures lp_fixed_ok(b0, given, enc, ul, hl, le, ob, sol, prog)
+{
+    reveal(lp_fixed_ok);
+}
+
+/// the machine parameters as `LineProgramHeader::lh()` assembles them from the decoded fields
+pub open spec fn mk_lh(enc: Encoding, le: LineEncoding, ob: u8) -> LineHdr {
+    LineHdr {
+        version: enc.version as int, address_size: enc.address_size as int,
+        min_inst_len: le.minimum_instruction_length as int, max_ops: le.maximum_operations_per_instruction as int,
+        default_is_stmt: le.default_is_stmt, line_base: le.line_base as int, line_range: le.line_range as int, opcode_base: ob as int,
+    }
+}
+
+/// [C04:header-valid]: the fixed part as decoded and checked by the parser is a valid parameter set of the machine
+pub proof fn lemma_fixed_valid(b0: RView, given: u8, enc: Encoding, ul: nat, hl: nat, le: LineEncoding, ob: u8, sol: RView, prog: RView)
+    requires lp_fixed_ok(b0, given, enc, ul, hl, le, ob, sol, prog)
+    ensures
+        valid_line_hdr(mk_lh(enc, le, ob)),
+        mk_lh(enc, le, ob) == lp_lh(b0, given),
+        enc.version as nat == lp_version(b0),
+        enc.format == il_format(b0), ul == il_len(b0), hl == lp_header_length(b0),
+        sol == lp_sol(b0), prog == lp_program(b0), lp_fits(b0),
+        enc.version >= 5 ==> lp_unit(b0).at(3) == 0,
+{
+    reveal(lp_fixed_ok);
+}
+
+// ---- empty tables (loop entry of the four table loops of LineProgramHeader::parse, where the table predicates are hidden)
+pub proof fn lemma_dirs_v4_empty<R: Reader<Offset = Offset>, Offset: ReaderOffset>(v: RView, dirs: Seq<AttributeValue<R, Offset>>)
+    requires dirs.len() == 0
+    ensures dirs_v4_ok(v, dirs)
+{}
+pub proof fn lemma_files_v4_empty<R: Reader<Offset = Offset>, Offset: ReaderOffset>(v: RView, files: Seq<FileEntry<R, Offset>>)
+    requires files.len() == 0
+    ensures files_v4_ok(v, files)
+{}
+pub proof fn lemma_dirs_v5_empty<R: Reader<Offset = Offset>, Offset: ReaderOffset>(v: RView, enc: Encoding, f: Seq<FileEntryFormat>, dirs: Seq<AttributeValue<R, Offset>>)
+    requires dirs.len() == 0
+    ensures dirs_v5_ok(v, enc, f, dirs)
+{}
+pub proof fn lemma_files_v5_empty<R: Reader<Offset = Offset>, Offset: ReaderOffset>(v: RView, enc: Encoding, f: Seq<FileEntryFormat>, files: Seq<FileEntry<R, Offset>>)
+    requires files.len() == 0
+    ensures files_v5_ok(v, enc, f, files)
+{}
